@@ -404,3 +404,37 @@ impl<T> Supervised<T> {
         }
     }
 }
+
+
+// ---------------------------------------------------------------------------
+// A `log` sink that formats every record (so the arguments of the library's
+// log statements are evaluated and their Display/Debug impls run, as they do
+// in every program that installs a logger) and throws the text away.
+pub static LOG_RECORDS: std::sync::atomic::AtomicU64 = std::sync::atomic::AtomicU64::new(0);
+pub static LOG_BYTES: std::sync::atomic::AtomicU64 = std::sync::atomic::AtomicU64::new(0);
+struct CountSink(u64);
+impl std::fmt::Write for CountSink {
+    fn write_str(&mut self, s: &str) -> std::fmt::Result {
+        self.0 += s.len() as u64;
+        Ok(())
+    }
+}
+struct FormattingLogger;
+impl log::Log for FormattingLogger {
+    fn enabled(&self, _: &log::Metadata) -> bool {
+        true
+    }
+    fn log(&self, record: &log::Record) {
+        use std::fmt::Write;
+        let mut sink = CountSink(0);
+        let _ = write!(sink, "{}", record.args());
+        LOG_RECORDS.fetch_add(1, std::sync::atomic::Ordering::Relaxed);
+        LOG_BYTES.fetch_add(sink.0, std::sync::atomic::Ordering::Relaxed);
+    }
+    fn flush(&self) {}
+}
+static FORMATTING_LOGGER: FormattingLogger = FormattingLogger;
+pub fn install_formatting_logger(level: log::LevelFilter) {
+    let _ = log::set_logger(&FORMATTING_LOGGER);
+    log::set_max_level(level);
+}
